@@ -63,7 +63,11 @@ def gen_source(rng, idx):
                 % ("    from shapes import Circle\n" if make_local else ""))
     if shadow == "local":
         body.append("def other():\n    from shapes import Square as Point\n    return Point\n\n")
-    body.append("def config(opts):\n%s    return sorted(opts)\n\n" % ("    from typing import Deque  # unused, local\n" if rng.random() < 0.3 else ""))
+    # the name TYPE_CHECKING imported, but only inside a function body (nothing binds it at module level)
+    nested_tc = (not existing_tc) and (idx % 10 == 5 or rng.random() < 0.15)
+    body.append("def config(opts):\n%s%s    return sorted(opts)\n\n" % (
+        "    from typing import Deque  # unused, local\n" if rng.random() < 0.3 else "",
+        "    from typing import TYPE_CHECKING\n    if TYPE_CHECKING:\n        pass\n" if nested_tc else ""))
     # an existing annotation that MonkeyType renders differently in a replicating stub (Optional[...] for a None default)
     qty = rng.choice(["qty: int = 1", "qty: int = None", "qty: 'int' = 1"])
     body.append("class Shop:\n    rate = 2\n\n    def price(self, item, %s):\n        \"\"\"Doc.\"\"\"\n        return self.rate * qty\n\n" % qty +
@@ -72,7 +76,7 @@ def gen_source(rng, idx):
                 + "".join("    out.append(repr(%s))\n" % u for u in uses) + "    return repr(out)\n")
     src = header + imports + tc_block + "\n" + "".join(body)
     return src, {"existing_tc": existing_tc, "local_import": local_import, "picks": [p[0].strip() for p in picks], "header": header,
-                 "make_local": make_local, "shadow": shadow}
+                 "make_local": make_local, "shadow": shadow, "nested_tc": nested_tc}
 
 
 def traces_for(mod, k, plain=False):
